@@ -1,4 +1,5 @@
 import Poly.Proofs.SchemaP2P
+import Poly.Generated.CodecInventory
 /-!
 # C05 — Peer-to-peer frames are integrity-checked and round-trip
 
@@ -122,6 +123,12 @@ theorem read_never_panics (magic : UInt32) (K : Bytes → Option Bytes) (H : Byt
 /-- every command string fits the 12-byte field, is NUL-free and is recognised after padding and trimming -/
 theorem commands_recognised : ∀ k ∈ Kind.all, (cmdField k).length = MSG_CMD_LEN ∧ kindOfCmd (trimNul (cmdField k)) = some k := by
   decide
+
+/-- (T) the message types with a codec pair in `p2pserver/message/types` are exactly the sixteen kinds plus the consensus
+payload they wrap. -/
+theorem inventory_covered :
+    (∀ e ∈ Poly.Generated.CodecInventory.c05, (Kind.all.map Kind.goType ++ ["ConsensusPayload"]).contains e.1 = true) ∧
+    (∀ k ∈ Kind.all, (Poly.Generated.CodecInventory.c05.map (·.1)).contains k.goType = true) := by decide
 
 /-! ## Non-vacuity -/
 example : HashLongEnough (fun _ => [1, 2, 3, 4]) := fun _ => by simp [CHECKSUM_LEN]
